@@ -273,7 +273,7 @@ def run(ctx):
         ctx.evaluations += 1
         if v == 'fail':
             ctx.violation(case, 'regression corpus %s: %s' % (os.path.basename(path), why))
-    failures = hyp.fan_out(ctx, 'pylib.props.c14', 'gen_case', 110 if quick else 5000, extra={'tier': ctx.tier})
+    failures = hyp.fan_out(ctx, 'pylib.props.c14', 'gen_case', 300 if quick else 6000, extra={'tier': ctx.tier})
     seen = set()
     for f in failures:
         parts = f['why'].split(':')
